@@ -160,7 +160,9 @@ func c19b64(s string) string {
 func c19OutputCallsSpace() core.Space {
 	orders := [][]string{{"yaml", "json"}, {"toml", "json"}, {"json-pretty", "json"}, {"yaml", "toml"}, {"json", "yaml"}}
 	return core.Space{Name: "output-entry-points-do-not-influence-each-other", N: int64(len(orders) * len(c19FreshDocs)), Chunk: 1,
-		Desc: func(i int64) any { return map[string]any{"formats": orders[i%int64(len(orders))], "doc": c19FreshDocs[i/int64(len(orders))]} },
+		Desc: func(i int64) any {
+			return map[string]any{"formats": orders[i%int64(len(orders))], "doc": c19FreshDocs[i/int64(len(orders))]}
+		},
 		Run: func(c *core.Ctx, i int64) {
 			fs, doc := orders[i%int64(len(orders))], c19FreshDocs[i/int64(len(orders))]
 			dir := scratchDir()
@@ -180,7 +182,11 @@ func c19OutputCallsSpace() core.Space {
 			second, _ := p.Output(fs[1])
 			c.Validated()
 			c.Nontrivial()
-			var w bytes.Buffer
+			var w0, w bytes.Buffer
+			if err := p.OutputToWriter(&w0, fs[0]); err != nil || w0.String() != string(first) {
+				c.Fail("as-if-never-observed", "writer-differs-from-output", wit, map[string]any{"got": w0.String(), "want": string(first)})
+				return
+			}
 			if err := p.OutputToWriter(&w, ""); err != nil || w.String() != string(pretty) {
 				c.Fail("as-if-never-observed", "writer-default-depends-on-earlier-calls", wit, map[string]any{"got": w.String(), "want": string(pretty)})
 				return
